@@ -1,5 +1,10 @@
 (* The internals of mir_eval/hierarchy.py tied to the model by TRANSLATION, part 2: _compare_frame_rankings (whole body).
-   Header completed at the end of the file. *)
+   [compare_frame_rankings_tie]: for EVERY function np.argsort may be ([argsort_ok]: a permutation of the indices that sorts
+   the reference; satisfiable: [stable_argsort_ok]), with _count_inversions = the model's (tied in HierTie.v), the generated
+   program returns (inversions, float(normalizer)) of Model.Hierarchy.cfr for all equally long non-negative integer arrays and
+   both modes, the (0, 0.0) special case included; [compare_frame_rankings_short_tie]: IndexError when est is shorter.
+   Method: the model's body on any sorted arrangement ([cfr_of], [cfr_of_spec] = the proof of HierarchyRank.cfr_spec), np.unique's
+   first-occurrence indices on a sorted array = prefix sums of the counts ([positions_starts]), the two loops by induction. *)
 From Coq Require Import String.
 From Coq Require Import List Bool Arith ZArith QArith Lia Permutation.
 From ME Require Import Model.Prelude Model.Events Model.Hierarchy Model.HierExp Gen.HierGen.
@@ -240,6 +245,142 @@ Proof. reflexivity. Qed.
 Lemma get_item_fancy l idx : get_item (VNVec l) (VNVec idx) = (r <~ fancy l idx ;; OK (VNVec r)).
 Proof. reflexivity. Qed.
 
+Definition cfr_names : list string := map fst (f_params gen__compare_frame_rankings) ++ f_locals gen__compare_frame_rankings.
+Definition cenv (vs : list pv) : env := combine cfr_names vs.
+Definition cfr_it1 : exp := match cfr_loop1 with SFor _ it _ => it | _ => ENone end.
+Definition cfr_body1 : list stmt := match cfr_loop1 with SFor _ _ b => b | _ => [] end.
+Lemma cfr_loop1_eq : cfr_loop1 = SFor ["level"; "cnt"; "start"; "end"]%string cfr_it1 cfr_body1.
+Proof. reflexivity. Qed.
+Definition cfr_body2 : list stmt := match cfr_loop2 with SFor _ _ b => b | _ => [] end.
+Lemma cfr_loop2_eq : cfr_loop2 = SFor ["level_1"; "level_2"]%string (ELoc "level_pairs") cfr_body2.
+Proof. reflexivity. Qed.
+Lemma exec_for xs it body en :
+  execx (SFor xs it body) en
+  = lift_e (eval argsort hier_sigs ext en it) (fun v => lift_e (iter_elems v) (fun els =>
+      for_loop (for_step (run_block execx) xs body) els en)).
+Proof. reflexivity. Qed.
+Lemma for_loop_cons step v t en :
+  for_loop step (v :: t) en = match step v en with SNorm en' | SCnt en' => for_loop step t en' | r => r end.
+Proof. reflexivity. Qed.
+Lemma for_loop_nil step en : for_loop step [] en = SNorm en. Proof. reflexivity. Qed.
+
+Definition vt4 (t : nat * nat * nat * nat) : pv := VTup [zn (t_v t); zn (t_c t); zn (t_s t); zn (t_e t)].
+Definition fI (t : nat * nat * nat * nat) : Z * pv := (Z.of_nat (t_v t), VSlice (Some (Z.of_nat (t_s t))) (Some (Z.of_nat (t_e t)))).
+Definition fR (t : nat * nat * nat * nat) : Z * pv := (Z.of_nat (t_v t), zn (t_c t)).
+
+Lemma cfr_loop1_spec a0 a1 a2 a3 a4 a5 a6 a7 a8 d1 d2 b0 b1 b2 b3 b4 b5 : forall T I R vl vc vs ve,
+  NoDup (map t_v T) ->
+  (forall p t, In p I -> In t T -> fst p <> Z.of_nat (t_v t)) ->
+  (forall p t, In p R -> In t T -> fst p <> Z.of_nat (t_v t)) ->
+  exists vl' vc' vs' ve',
+    for_loop (for_step (run_block execx) ["level"; "cnt"; "start"; "end"]%string cfr_body1) (map vt4 T)
+      (cenv [a0; a1; a2; a3; a4; a5; a6; a7; a8; VDDict d1 I; VDDict d2 R; vl; vc; vs; ve; b0; b1; b2; b3; b4; b5])
+    = SNorm (cenv [a0; a1; a2; a3; a4; a5; a6; a7; a8; VDDict d1 (I ++ map fI T); VDDict d2 (R ++ map fR T);
+                   vl'; vc'; vs'; ve'; b0; b1; b2; b3; b4; b5]).
+Proof.
+  induction T as [|t T IH]; intros I R vl vc vs ve ND HI HR.
+  - exists vl, vc, vs, ve. rewrite for_loop_nil, !app_nil_r. reflexivity.
+  - cbn [map]. rewrite for_loop_cons. inversion ND as [|? ? Hnt ND']; subst.
+    unfold for_step at 1. unfold cfr_body1. cbn. unfold builtin. cbn.
+    rewrite (dset_fresh I) by (intros p Hp; apply (HI p t Hp); left; reflexivity).
+    rewrite (dset_fresh R) by (intros p Hp; apply (HR p t Hp); left; reflexivity).
+    destruct (IH (I ++ [fI t]) (R ++ [fR t]) (zn (t_v t)) (zn (t_c t)) (zn (t_s t)) (zn (t_e t)) ND') as (vl' & vc' & vs' & ve' & E).
+    + intros p t' Hp Ht'. apply in_app_iff in Hp. destruct Hp as [Hp|[<-|[]]]; [apply (HI p t' Hp); right; exact Ht'|].
+      cbn [fI fst]. intros Heq. apply Nat2Z.inj in Heq. apply Hnt. rewrite Heq. apply in_map. exact Ht'.
+    + intros p t' Hp Ht'. apply in_app_iff in Hp. destruct Hp as [Hp|[<-|[]]]; [apply (HR p t' Hp); right; exact Ht'|].
+      cbn [fR fst]. intros Heq. apply Nat2Z.inj in Heq. apply Hnt. rewrite Heq. apply in_map. exact Ht'.
+    + exists vl', vc', vs', ve'. rewrite <- !app_assoc in E. cbn [app] in E. exact E.
+Qed.
+
+(* what the two dictionaries answer *)
+Definition tfind (T : list (nat * nat * nat * nat)) (k : nat) := find (fun t => t_v t =? k) T.
+Definition cnt (T : list (nat * nat * nat * nat)) (k : nat) : nat := match tfind T k with Some t => t_c t | None => 0 end.
+Definition lo (T : list (nat * nat * nat * nat)) (k : nat) : option Z := match tfind T k with Some t => Some (Z.of_nat (t_s t)) | None => None end.
+Definition hi (T : list (nat * nat * nat * nat)) (k : nat) : option Z := match tfind T k with Some t => Some (Z.of_nat (t_e t)) | None => Some 0%Z end.
+Lemma refmap_get T k : match dget (map fR T) (Z.of_nat k) with Some v => v | None => VInt 0 end = zn (cnt T k).
+Proof. unfold fR, cnt, tfind. rewrite (dget_map t_v (fun t => zn (t_c t))). destruct (find _ T); reflexivity. Qed.
+Lemma index_get T k : match dget (map fI T) (Z.of_nat k) with Some v => v | None => VSlice None (Some 0%Z) end = VSlice (lo T k) (hi T k).
+Proof. unfold fI, lo, hi, tfind. rewrite (dget_map t_v (fun t => VSlice (Some (Z.of_nat (t_s t))) (Some (Z.of_nat (t_e t))))). destruct (find _ T); reflexivity. Qed.
+Lemma cnt_dd_count u k st : cnt (tuples st u) k = dd_count u k.
+Proof.
+  unfold cnt, tfind, dd_count. revert st. induction u as [|[v c] t IH]; intros st; [reflexivity|].
+  change (tuples st ((v, c) :: t)) with ((v, c, st, st + c) :: tuples (st + c) t). cbn [find fst snd t_v]. unfold t_v at 1. cbn [fst].
+  destruct (v =? k); [reflexivity|apply IH].
+Qed.
+Lemma slice_dd_slice {A} u k (es : list A) : forall st,
+  py_slice (lo (tuples st u) k) (hi (tuples st u) k) es = take_slice (dd_slice (with_pos st u) k) es.
+Proof.
+  unfold lo, hi, tfind, dd_slice. induction u as [|[v c] t IH]; intros st.
+  - change (tuples st []) with (@nil (nat * nat * nat * nat)). change (with_pos st []) with (@nil (nat * (nat * nat))). cbn [find].
+    change 0%Z with (Z.of_nat 0). rewrite py_slice_to. reflexivity.
+  - change (tuples st ((v, c) :: t)) with ((v, c, st, st + c) :: tuples (st + c) t).
+    change (with_pos st ((v, c) :: t)) with ((v, (st, st + c)) :: with_pos (st + c) t). cbn [find fst snd]. unfold t_v at 1 3. cbn [fst].
+    destruct (v =? k); [|apply IH]. unfold t_s, t_e. cbn [fst snd]. rewrite py_slice_nat. reflexivity.
+Qed.
+
+(* the right-hand side of  normalizer = float(sum([ref_map[i] * ref_map[j] for (i, j) in lcounter])) *)
+Definition cfr_norm_exp : exp := match nth 11 cfr_body SPass with SAssign _ e => e | _ => ENone end.
+Lemma cfr_norm_eval en lp T :
+  lookup "lcounter" en = Some (VList (map v_npair lp)) -> lookup "ref_map" en = Some (VDDict (VInt 0) (map fR T)) ->
+  eval argsort hier_sigs ext en cfr_norm_exp = OK (VFloat (zq (Z.of_nat (lsum (fun ij => cnt T (fst ij) * cnt T (snd ij)) lp)))).
+Proof.
+  intros H1 H2. unfold cfr_norm_exp. cbn. unfold read_loc at 1. rewrite H1. cbn. rewrite map_map.
+  rewrite (map_ext _ (fun ij => OK [zn (cnt T (fst ij) * cnt T (snd ij))])).
+  2:{ intros ij. cbn. unfold read_loc. cbn. rewrite H2. cbn. rewrite !refmap_get. cbn. rewrite <- Nat2Z.inj_mul. reflexivity. }
+  rewrite (concatM_single (fun ij => zn (cnt T (fst ij) * cnt T (snd ij)))). cbn. unfold builtin. cbn. rewrite sum_vals_nat. cbn. reflexivity.
+Qed.
+
+Lemma sig_ci : lookup_sig hier_sigs "_count_inversions" = Some [("a"%string, None); ("b"%string, None)].
+Proof. reflexivity. Qed.
+Lemma cfr_loop2_spec a0 a1 a2 a3 a4 es a6 a7 a8 T a10 a11 a12 a13 a14 a15 a16 a17 : forall lp z vl1 vl2,
+  exists vl1' vl2',
+    for_loop (for_step (run_block execx) ["level_1"; "level_2"]%string cfr_body2) (map v_npair lp)
+      (cenv [a0; a1; a2; a3; a4; VNVec es; a6; a7; a8; VDDict (VSlice None (Some 0%Z)) (map fI T); a10; a11; a12; a13; a14; a15; a16; a17;
+             VInt z; vl1; vl2])
+    = SNorm (cenv [a0; a1; a2; a3; a4; VNVec es; a6; a7; a8; VDDict (VSlice None (Some 0%Z)) (map fI T); a10; a11; a12; a13; a14; a15; a16; a17;
+                   VInt (z + Z.of_nat (lsum (fun ij => count_inversions (py_slice (lo T (fst ij)) (hi T (fst ij)) es)
+                                                                         (py_slice (lo T (snd ij)) (hi T (snd ij)) es)) lp));
+                   vl1'; vl2']).
+Proof.
+  induction lp as [|ij lp IH]; intros z vl1 vl2.
+  - exists vl1, vl2. rewrite for_loop_nil. cbn [lsum fold_right]. replace (z + Z.of_nat 0)%Z with z by lia. reflexivity.
+  - cbn [map]. rewrite for_loop_cons. unfold for_step at 1. unfold cfr_body2. cbn. unfold call. rewrite sig_ci. cbn.
+    rewrite !index_get. cbn. rewrite Hext. cbn.
+    destruct (IH (z + Z.of_nat (count_inversions (py_slice (lo T (fst ij)) (hi T (fst ij)) es) (py_slice (lo T (snd ij)) (hi T (snd ij)) es)))%Z
+                 (zn (fst ij)) (zn (snd ij))) as (vl1' & vl2' & E).
+    exists vl1', vl2'. refine (eq_trans E _).
+    match goal with |- context [(?x + Z.of_nat ?A + Z.of_nat ?B)%Z] => replace (x + Z.of_nat A + Z.of_nat B)%Z with (x + Z.of_nat (A + B))%Z by lia end.
+    reflexivity.
+Qed.
+
+Lemma py_slice_m1 {A} (l : list A) : py_slice None (Some (-1)%Z) l = firstn (length l - 1) l.
+Proof.
+  unfold py_slice, slice_lo, slice_hi, norm_bound. cbn [skipn]. rewrite Nat.sub_0_r.
+  replace (-1 <? 0)%Z with true by reflexivity. f_equal. lia.
+Qed.
+Lemma cfr_it1_eval en u :
+  lookup "levels" en = Some (VNVec (map fst u)) -> lookup "counts" en = Some (VNVec (map snd u)) ->
+  lookup "positions" en = Some (VList (map zn (starts 0 u))) ->
+  eval argsort hier_sigs ext en cfr_it1 = OK (VList (map vt4 (tuples 0 u))).
+Proof.
+  intros H1 H2 H3. unfold cfr_it1. cbn. unfold read_loc. rewrite H1, H2, H3. cbn. unfold builtin. cbn.
+  rewrite py_slice_m1, map_length, starts_length. replace (S (length u) - 1) with (length u) by lia.
+  change 1%Z with (Z.of_nat 1). rewrite py_slice_from.
+  rewrite firstn_map, skipn_map, starts_firstn, starts_tl, (tuples_v u 0), (tuples_c u 0), !map_map.
+  rewrite (transpose4 (fun t => zn (t_v t)) (fun t => zn (t_c t)) (fun t => zn (t_s t)) (fun t => zn (t_e t))), map_map. reflexivity.
+Qed.
+Definition cfr_folded : list stmt :=
+  cfr_pre ++ [SFor ["level"; "cnt"; "start"; "end"]%string cfr_it1 cfr_body1; cfr_level_pairs_stmt; nth 10 cfr_body SPass;
+              SAssign "normalizer" cfr_norm_exp; nth 12 cfr_body SPass; nth 13 cfr_body SPass;
+              SFor ["level_1"; "level_2"]%string (ELoc "level_pairs") cfr_body2; nth 15 cfr_body SPass].
+Lemma cfr_folded_eq : cfr_body = cfr_folded. Proof. reflexivity. Qed.
+Local Arguments cfr_it1 : simpl never.
+Local Arguments cfr_body1 : simpl never.
+Local Arguments cfr_body2 : simpl never.
+Local Arguments cfr_norm_exp : simpl never.
+Local Arguments cfr_level_pairs_stmt : simpl never.
+Local Arguments lsum : simpl never.
+
 Theorem compare_frame_rankings_tie : forall ref est tr, length ref = length est ->
   runx gen__compare_frame_rankings [VNVec ref; VNVec est; VBool tr]
   = OK (VTup [zn (fst (cfr ref est tr)); VFloat (zq (Z.of_nat (snd (cfr ref est tr))))]).
@@ -248,11 +389,100 @@ Proof.
   set (idx := argsort ref) in *.
   assert (Hidx : forall i, In i idx -> i < length ref).
   { intros i Hi. apply (Permutation_in _ Hperm) in Hi. apply in_seq in Hi. lia. }
+  set (rs := map (fun i => nth i ref 0) idx) in *. set (es := map (fun i => nth i est 0) idx).
+  (* the model on this arrangement *)
+  assert (Hmodel : cfr ref est tr = cfr_of rs es tr).
+  { symmetry. set (S := map (fun i => (nth i ref 0, nth i est 0)) idx).
+    assert (E1 : rs = map fst S) by (unfold rs, S; rewrite map_map; reflexivity).
+    assert (E2 : es = map snd S) by (unfold es, S; rewrite map_map; reflexivity).
+    rewrite E1, E2. apply cfr_of_cfr.
+    - unfold S. apply ssorted_of_nsorted. exact Hsorted.
+    - rewrite (combine_as_map ref est HL). unfold S. apply Permutation_map. exact Hperm. }
+  rewrite Hmodel. unfold cfr_of. set (u := ucounts rs).
   unfold run_fun. cbn [length f_params gen__compare_frame_rankings Nat.eqb].
-  change (f_body _) with cfr_body. rewrite cfr_split. unfold exec_block. rewrite run_block_app.
-  remember (run_block execx (cfr_loop1 :: cfr_mid ++ cfr_loop2 :: cfr_post)) as K eqn:HK.
-  unfold cfr_pre. cbn. unfold builtin. cbn. fold idx. rewrite (fancy_ok ref idx Hidx). cbn.
-  rewrite (fancy_ok est idx) by (rewrite <- HL; exact Hidx). cbn.
-  Show.
-Abort.
+  change (f_body _) with cfr_body. rewrite cfr_folded_eq. unfold exec_block, cfr_folded, cfr_pre.
+  cbn. unfold builtin. cbn. fold idx. rewrite (fancy_ok ref idx Hidx). cbn.
+  rewrite (fancy_ok est idx) by (rewrite <- HL; exact Hidx). cbn. fold rs es. change uq_counts with ucounts. fold u.
+  replace (map zn (map (fun p => first_index (fst p) rs) u) ++ [zn (length rs)]) with (map zn (starts 0 u)).
+  2:{ unfold u. rewrite <- (positions_starts rs Hsorted), map_app. reflexivity. }
+  rewrite (cfr_it1_eval _ u) by reflexivity. cbn.
+  set (T := tuples 0 u).
+  assert (HND : NoDup (map t_v T)).
+  { unfold T. rewrite <- (tuples_v u 0). apply sinc_NoDup, incr_sinc. apply incr_ucounts. }
+  destruct (cfr_loop1_spec (VNVec ref) (VNVec est) (VBool tr) (VNVec idx) (VNVec rs) (VNVec es) (VNVec (map fst u))
+              (VList (map zn (starts 0 u))) (VNVec (map snd u)) (VSlice None (Some 0%Z)) (VInt 0)
+              VUnbound VUnbound VUnbound VUnbound VUnbound VUnbound T [] [] VUnbound VUnbound VUnbound VUnbound HND)
+    as (vl & vc & vs & ve & E1); [intros p t []|intros p t []|].
+  unfold cenv, cfr_names in E1. cbn [combine map fst app f_params f_locals gen__compare_frame_rankings] in E1.
+  rewrite E1. clear E1. cbn [app].
+  rewrite (cfr_level_pairs_stmt_partial argsort fuel ext _ tr (map fst u)) by reflexivity. cbn.
+  set (lp := level_pairs tr (map fst u)).
+  rewrite (cfr_norm_eval _ lp T) by reflexivity. cbn.
+  assert (Hcnt : lsum (fun ij => cnt T (fst ij) * cnt T (snd ij)) lp = lsum (fun ij => dd_count u (fst ij) * dd_count u (snd ij)) lp).
+  { apply lsum_ext. intros ij. unfold T. rewrite !cnt_dd_count. reflexivity. }
+  rewrite Hcnt. set (N := lsum (fun ij => dd_count u (fst ij) * dd_count u (snd ij)) lp).
+  rewrite qeqb_zq_nat. destruct (N =? 0) eqn:EN; cbn; [reflexivity|].
+  destruct (cfr_loop2_spec (VNVec ref) (VNVec est) (VBool tr) (VNVec idx) (VNVec rs) es (VNVec (map fst u))
+              (VList (map zn (starts 0 u))) (VNVec (map snd u)) T (VDDict (VInt 0) (map fR T)) vl vc vs ve
+              (VList (map v_npair lp)) (VList (map v_npair lp)) (VFloat (zq (Z.of_nat N))) lp 0%Z VUnbound VUnbound)
+    as (vl1 & vl2 & E2).
+  unfold cenv, cfr_names in E2. cbn [combine map fst app f_params f_locals gen__compare_frame_rankings] in E2.
+  rewrite E2. clear E2. cbn.
+  rewrite (lsum_ext _ (fun ij => count_inversions (take_slice (dd_slice (with_pos 0 u) (fst ij)) es)
+                                                  (take_slice (dd_slice (with_pos 0 u) (snd ij)) es))).
+  2:{ intros ij. unfold T. rewrite !slice_dd_slice. reflexivity. }
+  reflexivity.
+Qed.
 End Cfr.
+
+(* est shorter than ref: est[idx] raises *)
+Theorem compare_frame_rankings_short_tie : forall argsort fuel ext, argsort_ok argsort ->
+  forall ref est tr, length est < length ref ->
+  run_fun argsort fuel hier_sigs ext gen__compare_frame_rankings [VNVec ref; VNVec est; VBool tr] = EXN IndexError.
+Proof.
+  intros argsort fuel ext Hargsort ref est tr HL. destruct (Hargsort ref) as [Hperm _].
+  assert (Hidx : forall i, In i (argsort ref) -> i < length ref).
+  { intros i Hi. apply (Permutation_in _ Hperm) in Hi. apply in_seq in Hi. lia. }
+  unfold run_fun. cbn [length f_params gen__compare_frame_rankings Nat.eqb].
+  change (f_body _) with cfr_body. rewrite cfr_folded_eq. unfold exec_block, cfr_folded, cfr_pre.
+  cbn. unfold builtin. cbn. rewrite (fancy_ok ref _ Hidx). cbn.
+  rewrite (fancy_short est _ (length ref) Hperm HL). reflexivity.
+Qed.
+
+(* ---------- the hypothesis on np.argsort is satisfiable: the stable sort of the indices ---------- *)
+Definition stable_argsort (l : list nat) : list nat := map snd (sort_by_ref (combine l (seq 0 (length l)))).
+Lemma map_snd_combine {A B} (l : list A) (l' : list B) : length l = length l' -> map snd (combine l l') = l'.
+Proof. revert l'. induction l as [|x l IH]; intros [|y l'] H; try discriminate; [reflexivity|]. cbn [combine map snd]. rewrite IH by (cbn in H; lia). reflexivity. Qed.
+Lemma in_combine_seq (l : list nat) : forall s x i, In (x, i) (combine l (seq s (length l))) -> s <= i /\ x = nth (i - s) l 0.
+Proof.
+  induction l as [|y l IH]; intros s x i H; [destruct H|]. cbn [length seq combine] in H. destruct H as [H|H].
+  - inversion H; subst. rewrite Nat.sub_diag. split; [lia|reflexivity].
+  - apply IH in H. destruct H as [H1 H2]. split; [lia|]. replace (i - s) with (S (i - S s)) by lia. exact H2.
+Qed.
+Lemma nsorted_fst S : ssorted S -> nsorted (map fst S).
+Proof.
+  induction S as [|p S IH]; intros H; [exact I|]. destruct H as [H1 H2]. cbn [map nsorted]. split; [|apply IH; exact H2].
+  intros y Hy. apply in_map_iff in Hy. destruct Hy as [q [<- Hq]]. apply H1. exact Hq.
+Qed.
+Lemma stable_argsort_ok : argsort_ok stable_argsort.
+Proof.
+  intros l. unfold stable_argsort. set (C := combine l (seq 0 (length l))). split.
+  - rewrite (Permutation_map snd (sort_by_ref_perm C)). unfold C. rewrite map_snd_combine by (rewrite seq_length; reflexivity). reflexivity.
+  - rewrite map_map. rewrite (map_ext_in _ fst).
+    + apply nsorted_fst, ssorted_sort.
+    + intros [x i] Hp. apply (Permutation_in _ (sort_by_ref_perm C)) in Hp. unfold C in Hp. apply in_combine_seq in Hp.
+      destruct Hp as [_ Hx]. cbn [fst snd]. rewrite Nat.sub_0_r in Hx. symmetry. exact Hx.
+Qed.
+Corollary compare_frame_rankings_tie_stable : forall fuel ext,
+  (forall x y, ext "_count_inversions"%string [VNVec x; VNVec y] = OK (zn (count_inversions x y))) ->
+  forall ref est tr, length ref = length est ->
+  run_fun stable_argsort fuel hier_sigs ext gen__compare_frame_rankings [VNVec ref; VNVec est; VBool tr]
+  = OK (VTup [zn (fst (cfr ref est tr)); VFloat (zq (Z.of_nat (snd (cfr ref est tr))))]).
+Proof. intros fuel ext Hext. apply compare_frame_rankings_tie; [apply stable_argsort_ok|exact Hext]. Qed.
+
+Check compare_frame_rankings_tie.
+Print Assumptions compare_frame_rankings_tie.
+Check compare_frame_rankings_short_tie.
+Print Assumptions compare_frame_rankings_short_tie.
+Check stable_argsort_ok.
+Print Assumptions compare_frame_rankings_tie_stable.
